@@ -183,8 +183,10 @@ func (e *Emulator) evalRegsFully(ex expr.Expr, s *Step) expr.Expr {
 // in the memory, it's obtained using stateProvider interface and stored in the
 // memory storage.
 func (e *Emulator) memValue(key expr.Key, addr model.Addr, w expr.Width) expr.Const {
+	// A value composed of multiple writes is an expression of constants,
+	// which has to be folded into a single constant.
 	if val, ok := e.State.Mems.Load(key, addr, w); ok {
-		return val.(expr.Const)
+		return exprtransform.ConstFold(val).(expr.Const)
 	}
 
 	for _, intv := range e.State.Mems.Missing(key, addr, w).Intervals() {
@@ -208,7 +210,7 @@ func (e *Emulator) memValue(key expr.Key, addr model.Addr, w expr.Width) expr.Co
 			w, addr))
 	}
 
-	return val.(expr.Const)
+	return exprtransform.ConstFold(val).(expr.Const)
 }
 
 func (e *Emulator) evalMemoryFully(ex expr.Expr, s *Step) expr.Expr {
